@@ -122,6 +122,10 @@ class FnAlloc:
         if k != "inst": return None
         i = self.fn.imap[o["v"]]
         if i.op in ("zext", "sext", "trunc", "bitcast", "ptrtoint", "freeze"): return self.const_under(i.ops[0], s, V, depth + 1)
+        if i.op == "phi" and i["t"] in ("i1", "i8") and i.block.id not in self.fn.loops():
+            # a flag that is constant on some paths and a test of the site on the others: its value when the site failed, if that is one value
+            vals = {self.const_under(c["v"], s, V, depth + 1) for c in i["incoming"]}
+            return vals.pop() if len(vals) == 1 and None not in vals else None
         if i.op == "xor":
             a = self.const_under(i.ops[0], s, V, depth + 1); b = self.const_under(i.ops[1], s, V, depth + 1)
             if a is None or b is None: return None
@@ -144,6 +148,9 @@ class FnAlloc:
         i = self.fn.imap[o["v"]]
         if i.op in ("zext", "sext", "trunc", "bitcast", "ptrtoint", "xor", "icmp", "freeze"):
             return any(self.mentions(x, s, depth + 1) for x in i.ops)
+        if i.op == "phi" and i["t"] in ("i1", "i8") and i.block.id not in self.fn.loops():
+            # a flag variable: `ok = false; if (...) { p = malloc(n); ok = (p != NULL); }`
+            return any(self.mentions(c["v"], s, depth + 1) for c in i["incoming"])
         return False
 
     def edge_refine(self, p, b, st):
@@ -229,6 +236,24 @@ class FnAlloc:
                                 if self.inside.get(k2) == k and (cur(k2) & {"I", "J"}):
                                     self.r3.append((s2, i, "block stored inside %s is lost: the container is released with plain free()" % s.name()))
                         setk(k, {("R" if x in ("O", "M", "Z", "P", "I", "J") else x) for x in cur(k)})
+                # `done: free(scratch);` where scratch merges NULL and the results of several allocation sites at this join: per incoming
+                # edge, the site whose pointer arrives is released; on the other edges the site keeps the state it had there
+                x = i.ops[0]
+                while x["k"] == "inst" and self.fn.imap[x["v"]].op == "bitcast": x = self.fn.imap[x["v"]].ops[0]
+                ph = self.fn.imap[x["v"]] if x["k"] == "inst" else None
+                OUT_ = getattr(self, "_OUT", None); IN_ = getattr(self, "_IN", None)
+                if ph is not None and ph.op == "phi" and ph.block is i.block and OUT_ is not None and i.block.id in IN_:
+                    for k, s in enumerate(sites):
+                        if s.kind == "status" or self.is_alias(s, i.ops[0]): continue
+                        incs = [(inc, self.is_alias(s, inc["v"])) for inc in ph["incoming"]]
+                        if not any(a for _, a in incs) or cur(k) != IN_[i.block.id][k]: continue
+                        new = set()
+                        for inc, a in incs:
+                            pb = self.fn.bmap[inc["b"]]
+                            if (pb.id, i.block.id) in self.dead_edges or pb.id not in OUT_: continue
+                            est = self.edge_refine(pb, i.block, OUT_[pb.id])[k]
+                            new |= {("R" if z in ("O", "M", "Z", "P", "I", "J") else z) for z in est} if a else set(est)
+                        if new: setk(k, new)
             elif c == "realloc":
                 for k, s in enumerate(sites):
                     if s.inst is not i and s.kind != "status" and self.is_alias(s, i.ops[0]):
@@ -298,6 +323,7 @@ class FnAlloc:
         self.dead_edges = fn.enum_default_edges(self.fi)
         init = tuple(frozenset({"M"}) if s.kind == "param" else frozenset({"U"}) for s in self.sites)
         IN = {fn.entry.id: init}; OUT = {}
+        self._IN = IN; self._OUT = OUT
         def join(a, b):
             if a is None: return b
             return tuple(x | y for x, y in zip(a, b))
@@ -382,8 +408,15 @@ class FnAlloc:
                 out.append((t, v, p))
                 continue
             if t.op == "unreachable": continue
-            for s in blk.succs:
-                stack.append((b, s.id, tuple(sorted(e.items(), key=lambda kv: kv[0]))))
+            succs = [s.id for s in blk.succs]
+            if t.op == "br" and len(t.ops) == 3 and t.ops[1]["v"] != t.ops[2]["v"]:
+                # the site holds its failure value all along this path: a later test of it (or of a flag that records it) goes one way only
+                st_ = self.sites[k]
+                if self.mentions(t.ops[0], st_):
+                    cv = self.const_under(t.ops[0], st_, 0 if st_.kind != "status" else st_.fail_value)
+                    if cv is not None: succs = [t.ops[2]["v"] if cv else t.ops[1]["v"]]
+            for sid in succs:
+                stack.append((b, sid, tuple(sorted(e.items(), key=lambda kv: kv[0]))))
         return out
 
 
